@@ -7,10 +7,12 @@ for d in sorted(os.listdir(base)):
     if not os.path.exists(p):
         print(d, 'NO-CONFIRM'); continue
     res = []
+    latest = {}
     for ln in open(p):
-        m = re.match(r'check (C\d+): (.*)', ln)
-        if not m: continue
-        body = m.group(2)
+        m = re.match(r'(?:re)?check (C\d+): (.*)', ln)
+        if m: latest[m.group(1)] = m.group(2)
+    for cid, body in latest.items():
+        m = re.match(r'(C\d+)', cid)
         if 'VIOLATION' in body:
             v = 'CAUGHT' + ('(no-input)' if 'no-failing-input-found' in body else '')
         elif re.search(r'\bOK property', body): v = 'missed'
